@@ -107,7 +107,7 @@ def observers_disagree(st_line):
 class C12(Property):
     id = "C12"
     families = ["store"]
-    rule = "random update histories (length 5-60) over label universes of 2-8 labels (one in 25: 80-250 operations over 12-30 labels), half of them state-aware (most operations valid on the current framework: existing attacks removed with a bias to older ones, hub arguments collecting many attacks, removed labels re-added), incl. self-attacks, re-insertion of removed labels, repeated removals, invalid operands; plus constructor routes (new_with_labels, new_with_argument_set after set-level removals); after every operation all observers incl. iteration orders are compared with the Lean model, and the model state with the abstract set model; non-trivial = history with at least one removal and one attack"
+    rule = "random update histories (length 5-60) over label universes of 2-8 labels (one in 25: 80-250 operations over 12-30 labels; one in 50: a hub with 17-40 outgoing attacks, incoming ones, then its self-attack, repeated attacks and removals), half of them state-aware (most operations valid on the current framework: existing attacks removed with a bias to older ones, hub arguments collecting many attacks, removed labels re-added), incl. self-attacks, re-insertion of removed labels, repeated removals, invalid operands; plus constructor routes (new_with_labels, new_with_argument_set after set-level removals); after every operation all observers incl. iteration orders are compared with the Lean model, and the model state with the abstract set model; non-trivial = history with at least one removal and one attack"
     assumptions = ["std::collections::HashMap modelled as a finite map", "labels instantiated at usize"]
 
     def cases(self, tier, rng):
@@ -119,9 +119,23 @@ class C12(Property):
             length = rng.randint(5, 60 if tier != "quick" else 40)
             ops = rand_history(rng, length, universe) if i % 2 == 0 else guided_history(rng, length, universe)
             if i % 25 == 7:
-                # large histories: 12-30 labels, 80-250 operations, hubs with many attacks, many tombstones
+                # large histories (hub histories below): 12-30 labels, 80-250 operations, hubs with many attacks, many tombstones
                 big = rng.sample(range(1, 200), rng.randint(12, 30))
                 ops = guided_history(rng, rng.randint(80, 250), big)
+            if i % 50 == 3:
+                # a hub: one argument with 17-40 outgoing attacks and a few incoming ones, THEN its self-attack, repeated attacks,
+                # and removals around it (degree-dependent code paths in the duplicate tests and the rows)
+                k = rng.randint(18, 42)
+                big = rng.sample(range(1, 200), k)
+                hub, others = big[0], big[1:]
+                ops = ["A%d" % l for l in big]
+                ops += ["+%d>%d" % (x, hub) for x in rng.sample(others, rng.randint(1, 3))]
+                ops += ["+%d>%d" % (hub, x) for x in others[:rng.randint(17, len(others))]]
+                tail = ["+%d>%d" % (hub, hub), "+%d>%d" % (hub, rng.choice(others)), "+%d>%d" % (rng.choice(others), hub),
+                        "-%d>%d" % (hub, rng.choice(others)), "+%d>%d" % (hub, hub), "R%d" % rng.choice(others), "-%d>%d" % (hub, hub),
+                        "+%d>%d" % (rng.choice(others), rng.choice(others))]
+                rng.shuffle(tail)
+                ops += ["+%d>%d" % (hub, hub)] + tail if rng.random() < 0.5 else tail
             if i % 10 == 0:
                 init = rng.sample(universe, rng.randint(0, u))
                 if rng.random() < 0.3 and init:
